@@ -84,6 +84,7 @@ type ardopSim struct {
 	// earlyBuffer: report the current queue (BUFFER n, for earlier data) as soon as a data frame's header has
 	// been seen, before its body is taken off the link
 	earlyBuffer bool
+	banner      []byte // ARQ payload delivered right behind the CONNECTED report of an outbound connect
 }
 
 func newArdopSim(tcp bool, ctrl, data io.ReadWriter) *ardopSim {
@@ -321,6 +322,16 @@ func (s *ardopSim) gotCmd(text string, raw []byte) {
 	s.mu.Unlock()
 	for _, r := range s.reply(text) {
 		s.sendCtrl(r)
+		// the remote station may start talking the moment the link is up: its first ARQ frame follows the
+		// CONNECTED report directly, before the host has asked anything else
+		if strings.HasPrefix(r, "CONNECTED ") {
+			s.mu.Lock()
+			b := s.banner
+			s.mu.Unlock()
+			if len(b) > 0 {
+				s.sendData("ARQ", b)
+			}
+		}
 	}
 }
 
